@@ -879,6 +879,19 @@ func (il *inliner) findCall(e *ast.Expr) (slot *ast.Expr, call *ast.CallExpr, fn
 	return
 }
 
+// peekCall reports whether e contains a call findCall would pick, without recording anything.
+func (il *inliner) peekCall(e *ast.Expr) (*ast.Expr, *ast.CallExpr, *types.Func) {
+	savedOrd := map[string]int{}
+	for k, v := range il.siteOrd {
+		savedOrd[k] = v
+	}
+	nKeys := len(il.doneKeys)
+	slot, call, fn := il.findCall(e)
+	il.siteOrd = savedOrd
+	il.doneKeys = il.doneKeys[:nKeys]
+	return slot, call, fn
+}
+
 func (il *inliner) siteKey(g *types.Func) string {
 	name := ""
 	if il.curFunc != nil {
@@ -895,6 +908,16 @@ func (il *inliner) inlineIn(s ast.Stmt) ([]ast.Stmt, bool) {
 			if repl, ok := il.inlineIn(x.Init); ok {
 				x.Init = nil
 				return []ast.Stmt{&ast.BlockStmt{List: append(repl, x)}}, true
+			}
+			// nothing to expand in the init statement: `if init; cond {..}` is `{ init; if cond {..} }`, and a call
+			// in the condition can then be expanded after the init statement has run
+			if slot, call, _ := il.peekCall(&x.Cond); slot != nil && call != nil {
+				init := x.Init
+				x.Init = nil
+				if repl, ok := il.inlineIn(x); ok {
+					return []ast.Stmt{&ast.BlockStmt{List: append([]ast.Stmt{init}, repl...)}}, true
+				}
+				x.Init = init
 			}
 			return nil, false
 		}
